@@ -56,6 +56,59 @@ Definition residual_cross (n : nat) (KJ S B : M) : M :=
 
 End Posterior.
 
+(* ---- lazily evaluated kernels with active_dims -------------------------------------------
+   Kernel.__call__ (kernels/kernel.py:508-511) restricts the inputs to the kernel's active columns
+   and, when kernels are evaluated lazily, stores the ALREADY RESTRICTED inputs in a
+   LazyEvaluatedKernelTensor.  evaluate_kernel (lazy/lazy_evaluated_kernel_tensor.py:352-369) later
+   calls the kernel again on the stored inputs with kernel.active_dims temporarily None (the columns
+   must not be selected twice) and then puts active_dims back.  The kernel OBJECT is shared by every
+   lazy tensor it produced (one prediction builds the train-train and the joint tensor before either
+   is evaluated; later predictions build more), so the state is (current active_dims, tensors built
+   so far).  [restore] = evaluate_kernel puts active_dims back (the real code: always). *)
+Section LazyKernel.
+Context {K : Fld}.
+Variable kf : M -> M -> M.          (* the kernel function proper, on the columns it is given *)
+
+Definition select_cols (ad : list nat) (X : M) : M := fun i j => X i (nth j ad 0%nat).
+Definition slice_active (a : option (list nat)) (X : M) : M :=
+  match a with None => X | Some ad => select_cols ad X end.
+
+(* the eager path: restrict and evaluate in one go *)
+Definition eager_call (a : option (list nat)) (X1 X2 : M) : M := kf (slice_active a X1) (slice_active a X2).
+
+Inductive kop := KBuild (X1 X2 : M) | KEval (i : nat).
+
+(* state: active_dims the kernel object holds now; the lazy tensors (stored inputs) built so far *)
+Definition lazy_build (a : option (list nat)) (X1 X2 : M) : M * M := (slice_active a X1, slice_active a X2).
+Definition evaluate_kernel (restore : bool) (a : option (list nat)) (L : M * M) : option (list nat) * M :=
+  let temp_active_dims := a in
+  let res := eager_call None (fst L) (snd L) in                (* the call made while active_dims = None *)
+  ((if restore then temp_active_dims else None), res).
+
+Fixpoint lazy_run (restore : bool) (a : option (list nat)) (ts : list (M * M)) (ops : list kop) : list M :=
+  match ops with
+  | [] => []
+  | KBuild X1 X2 :: r => lazy_run restore a (ts ++ [lazy_build a X1 X2]) r
+  | KEval i :: r =>
+      match nth_error ts i with
+      | Some L => let '(a', res) := evaluate_kernel restore a L in res :: lazy_run restore a' ts r
+      | None => lazy_run restore a ts r
+      end
+  end.
+
+(* specification: every tensor is the eager evaluation under the active_dims the kernel was CONSTRUCTED with *)
+Fixpoint eager_run (a0 : option (list nat)) (vs : list M) (ops : list kop) : list M :=
+  match ops with
+  | [] => []
+  | KBuild X1 X2 :: r => eager_run a0 (vs ++ [eager_call a0 X1 X2]) r
+  | KEval i :: r =>
+      match nth_error vs i with
+      | Some v => v :: eager_run a0 vs r
+      | None => eager_run a0 vs r
+      end
+  end.
+End LazyKernel.
+
 (* ---- executable instance: rationals in, rationals out --------------------------------- *)
 (* case = (n, t, KJ rows, muJ, S rows, y);  result: 0 if (Kxx+S) is singular, else
    1 :: mean (t) ++ cov (t*t) ++ cov via the root path with R := Ainv * (Kxx+S)^{1/2}... the
